@@ -368,6 +368,8 @@ class Exec(Interp):
             t = self.truth(self.ev(s.test, fr))
             enter = self.ctx.branch(t)
         if enter:
+            for g, e0 in spec.get('ghost_step', {}).items():
+                self.ghost[gsub(g)] = self.pure_eval(gsub(e0), fr)      # values at the start of this iteration
             var0 = None
             if 'variant' in spec:
                 var0 = to_int(self.pure_eval(gsub(spec['variant']), fr))
@@ -387,6 +389,9 @@ class Exec(Interp):
                 self.ghost[g] = self.pure_eval(e1, fr)
             for i, g in eval_invs(fr):
                 self.ctx.oblige(self.oname('inv-pres', line, i), self.as_goal(g), 'inv-pres', line)
+            for i, x in enumerate(spec.get('step', [])):
+                # step refinement: the iteration just executed implements the specification's step
+                self.ctx.oblige(self.oname('step', line, i), self.as_goal(self.pure_eval(gsub(x), fr)), 'inv-pres', line)
             if var0 is not None:
                 var1 = to_int(self.pure_eval(gsub(spec['variant']), fr))
                 self.ctx.oblige(self.oname('variant', line), z3.And(var0 >= 0, var1 < var0), 'variant', line)
@@ -399,7 +404,7 @@ class Exec(Interp):
         self.block(s.orelse, fr)
 
     def havoc_loop(self, s, fr, spec):
-        names, attr_paths, containers, has_call = loop_effects(s)
+        names, attr_paths, containers, has_call = loop_effects(s, getattr(self, 'local_defs', None))
         shapes = spec.get('shapes', {})
         for n in sorted(names | set(spec.get('modifies_names', []))):
             if n in shapes:
@@ -562,11 +567,15 @@ _CONTAINER_MUTATORS = {'append', 'extend', 'insert', 'pop', 'update', 'add', 'so
                        'setdefault', 'discard', 'popitem', 'reverse'}
 
 
-def loop_effects(loop):
+def loop_effects(loop, local_defs=None):
     """static scan of a loop body: (assigned names, assigned attribute paths,
-    mutated container names, has a call that may move a stream)"""
+    mutated container names, has a call that may move a stream).  Calls to nested functions of
+    the enclosing function are followed (their attribute stores, container mutations and nonlocal
+    assignments are effects of the loop)."""
     names, attr_paths, containers = set(), set(), set()
     has_call = [False]
+    local_defs = local_defs or {}
+    followed = set()
 
     def path_of(e):
         parts = []
@@ -606,6 +615,20 @@ def loop_effects(loop):
                 else:
                     has_call[0] = True
             elif isinstance(f, ast.Name):
+                if f.id in local_defs and f.id not in followed:
+                    followed.add(f.id)
+                    d = local_defs[f.id]
+                    nl = set()
+                    for st2 in ast.walk(d):
+                        if isinstance(st2, ast.Nonlocal):
+                            nl.update(st2.names)
+                    before = set(names)
+                    for st2 in d.body:
+                        visit(st2)
+                    # plain assignments inside the nested function bind its own locals
+                    for nm in set(names) - before:
+                        if nm not in nl:
+                            names.discard(nm)
                 if f.id not in _PURE_BUILTINS:
                     has_call[0] = True
             else:
